@@ -83,6 +83,25 @@ def cq_pair(a, b):
     return '(%s,%s)' % (a, b)
 
 
+EXN = {'ValueError': 'ValueError', 'InvalidChordException': 'InvalidChord', 'IndexError': 'IndexError',
+       'ZeroDivisionError': 'ZeroDivisionError', 'TypeError': 'TypeError', 'KeyError': 'KeyError'}
+
+
+def cq_exn(name):
+    return EXN.get(name, 'OtherExn')
+
+
+def cq_res(out, f):
+    """out = ['ok', value] | ['exc', class name]  ->  Coq `res` literal."""
+    if out[0] == 'ok':
+        return '(Ok %s)' % f(out[1])
+    return '(Raise %s)' % cq_exn(out[1])
+
+
+def cq_str(s):
+    return '(' + cq_codes(s) + ')%nat'
+
+
 # ----------------------------------------------------------------------------------------------
 # running Coq
 # ----------------------------------------------------------------------------------------------
@@ -189,6 +208,34 @@ def make(targets, timeout=1500):
 def coqc_file(path, timeout=600, extra=()):
     rc, out, dt = sh(['coqc', '-Q', COQ, 'ME'] + list(extra) + [path], timeout=timeout)
     return rc, out, dt
+
+
+def coq_eval(requires, exprs, timeout=300, scope=None):
+    """Evaluate Coq terms by vm_compute in a scratch file; returns the list of printed results (raw text)."""
+    path = os.path.join(CORR, 'eval_%d_%d.v' % (os.getpid(), int(time.time() * 1000) % 100000))
+    with open(path, 'w') as f:
+        f.write('From Coq Require Import List ZArith QArith String Bool Arith NArith.\n')
+        for r in requires:
+            f.write('From ME Require Import %s.\n' % r.replace('ME.', ''))
+        f.write('Import ListNotations.\n')
+        if scope:
+            f.write('Open Scope %s.\n' % scope)
+        for i, e in enumerate(exprs):
+            f.write('Definition ev_%d := %s.\nEval vm_compute in ev_%d.\n' % (i, e, i))
+    rc, out, dt = sh(['coqc', '-Q', COQ, 'ME', path], timeout=timeout)
+    _cleanup([path])
+    if rc != 0:
+        return None, out
+    parts = re.split(r'^\s*=\s', out, flags=re.M)[1:]
+    res = []
+    for p_ in parts:
+        res.append(re.sub(r'\n\s*:\s[^\n]*(\n[^=\n][^\n]*)*$', '', p_.strip(), flags=re.S).strip())
+    return res, out
+
+
+def coq_nat_list(text):
+    """'[78; 10]' / 'Differ [78; 10]' / 'Some [1; 2]' -> [78, 10] (all integers appearing in the text)."""
+    return [int(x) for x in re.findall(r'-?\d+', text)]
 
 
 def first_coq_error(log):
